@@ -634,7 +634,12 @@ func (w *Writer) WriteCompressed(refs []Reference, objects ...Object) (err error
 		for i, obj := range objects {
 			err := w.Put(refs[i], obj)
 			if err != nil {
-				return fmt.Errorf("Writer.WriteCompressed (no object streams): %w", err)
+				err = fmt.Errorf("Writer.WriteCompressed (no object streams): %w", err)
+				if i > 0 {
+					// the earlier objects are in the file already
+					w.fail(err)
+				}
+				return err
 			}
 		}
 		return nil
